@@ -31,7 +31,11 @@ type c20Base struct {
 	prot, payload, sig []byte
 }
 
+// c20Used: a valid token decoded first into the "used" Evidence (set by the scenario factory)
+var c20Used []byte
+
 func c20MakeBase() *c20Base {
+	c20Used = c02MakeSeed("ES256", 2, 3).tok
 	s := c02MakeSeed("ES256", 1, 0)
 	return &c20Base{s.view.prot, s.view.payload, s.view.sig}
 }
@@ -100,6 +104,14 @@ func c20Scenario() (choice.Scenario, func() any) {
 		inPayload("tagged-map", eOpen, func() []byte { return mcbor.Encode(mcbor.Tg(55799, claims())) }),
 		inPayload("indef-map", eOpen, func() []byte { return mcbor.Encode(claims().Ind()) }),
 		inPayload("float", eBad, func() []byte { return []byte{0xf9, 0x3e, 0x00} }),
+		inPayload("tag24(null)", eBad, func() []byte { return []byte{0xd8, 0x18, 0xf6} }),
+		inPayload("tag160(null)", eBad, func() []byte { return []byte{0xd8, 0xa0, 0xf6} }),
+		inPayload("tag191(undefined)", eBad, func() []byte { return []byte{0xd8, 0xbf, 0xf7} }),
+		inPayload("tag4(null)", eBad, func() []byte { return []byte{0xc4, 0xf6} }),
+		inPayload("tag0xa0a0(null)", eBad, func() []byte { return []byte{0xd9, 0xa0, 0xa0, 0xf6} }),
+		inPayload("tag55799(null)", eBad, func() []byte { return []byte{0xd9, 0xd9, 0xf7, 0xf6} }),
+		inPayload("tag55799(tag24(undefined))", eBad, func() []byte { return []byte{0xd9, 0xd9, 0xf7, 0xd8, 0x18, 0xf7} }),
+		inPayload("tag(uint)", eBad, func() []byte { return []byte{0xd8, 0xa5, 0x01} }),
 		inPayload("nested-sign1", eBad, func() []byte { return envelope(base.prot, nil, base.payload, base.sig) }),
 		{"bstr-empty", eBad, func() *mcbor.Node { return mcbor.B(nil) }},
 		{"map-unwrapped", eBad, claims},
@@ -228,6 +240,17 @@ func c20Judge(c *choice.Ctx, st *Stats, wire []byte, bad, open []string) {
 	st.Trans.Add(1)
 	if (err == nil) != (err2 == nil) {
 		c.Failf("C20:entry-points-disagree", "DecodeEvidenceFromCOSE err=%v but UnmarshalCOSE err=%v\n%x", err, err2, wire)
+	}
+	// an Evidence that already holds a decoded token must judge the input like a fresh one
+	if c20Used != nil {
+		used := &psatoken.Evidence{}
+		if used.UnmarshalCOSE(append([]byte{}, c20Used...)) == nil {
+			err3 := used.UnmarshalCOSE(append([]byte{}, wire...))
+			st.Trans.Add(1)
+			if (err3 == nil) != (err == nil) {
+				c.Failf("C20:used-evidence-disagrees:"+strings.Join(append(bad, open...), ","), "a fresh Evidence: err=%v; an Evidence that decoded a valid token before: err=%v\n%x", err, err3, wire)
+			}
+		}
 	}
 	if err != nil {
 		if ev != nil {
